@@ -34,6 +34,8 @@ type spy struct {
 	opaque                   map[string]bool     // addresses whose balance also moves through channels the spy does not model as transfers
 	liveXfer                 map[string]*big.Int // address -> net delta by transfers of calls that did not fail
 	failedNested, failedDeep int
+	// okTxAfterFailedWrites counts transactions that ended Ok although a nested call had failed after writing
+	okTxAfterFailedWrites int
 }
 
 type write struct {
@@ -130,6 +132,8 @@ func (s *spy) endTx(out *vmcommon.VMOutput) {
 	if len(s.deadWrites) == 0 && len(s.deadXfer) == 0 {
 		return
 	}
+	s.okTxAfterFailedWrites++
+	s.c.Probe("tx_ok_after_nested_call_failed_with_effects")
 	addrs := make([]string, 0, len(out.OutputAccounts))
 	for a := range out.OutputAccounts {
 		addrs = append(addrs, a)
